@@ -41,6 +41,14 @@ TX == INSTANCE Text      \* shared string helpers (named instance: immune to lat
 
 Meta == {"<", ">", "&", "\"", "'", "\r", "\n"}
 DataAlphabet == Meta \cup {"a"}
+\* ENCODED forms of the metacharacters, as data: a decoder on the way from the source to an echo site (percent-decoding of
+\* request paths, URL: selectors and search strings, entity decoding) must not turn them into live markup.  The code
+\* decodes exactly once where the protocol says so (gamma encodes once more for transport), so every token below must
+\* arrive - and be echoed - as the literal characters it is made of.
+EncTokens == {"%3C", "%22", "%26", "%0A",           \* percent-encoded  < " & LF
+              "%253C", "%2522",                     \* percent-encoded twice
+              "&lt;", "&quot;", "&#60;"}            \* entity and numeric character reference
+EncAlphabet == EncTokens \cup {"a"}
 
 \* characters that must not appear raw in a context (a raw & is one not starting an entity)
 RawOf(ctx) == CASE ctx = "text"   -> {"<", "&"}
@@ -68,7 +76,8 @@ EscChar(c) == CASE c = "&" -> "&amp;" [] c = "<" -> "&lt;" [] c = ">" -> "&gt;"
                 [] c = "\"" -> "&quot;" [] c = "'" -> "&#x27;" [] OTHER -> c
 QuoteChar(c) == CASE c = "&" -> "%26" [] c = "<" -> "%3C" [] c = ">" -> "%3E" [] c = "\"" -> "%22"
                   [] c = "'" -> "%27" [] c = "\r" -> "%0D" [] c = "\n" -> "%0A" [] c = " " -> "%20"
-                  [] OTHER -> c
+                  [] c = "%" -> "%25" [] c = "#" -> "%23" [] c = ";" -> "%3B"
+                  [] OTHER -> c                      \* letters, digits (and _ . - ~ /) are safe
 RECURSIVE HtmlEscape(_)
 HtmlEscape(s) == IF s = "" THEN "" ELSE EscChar(TX!Ch(s, 1)) \o HtmlEscape(TX!Tail1(s))   \* html.escape(s, quote=True)
 RECURSIVE UrlQuote(_)
@@ -266,8 +275,9 @@ RawSiteOf(c, d) ==
         ks == {k \in 1..Len(ss) : SiteTab[ss[k]].xf = "raw"}
     IN IF ks = {} \/ c.norm = "opaque" THEN "" ELSE ss[CHOOSE k \in ks : \A j \in ks : k <= j]
 
-\* the inert twin: same shape (separators of the source kept), every other metacharacter -> "a"
-TwinChar(c, seps) == IF c \in seps THEN c ELSE IF c \in Meta THEN "a" ELSE c
+\* the inert twin: same shape (separators of the source kept), every other metacharacter (and %) -> "a"
+TwinMeta == Meta \cup {"%"}              \* "%" too: the twin must stay inert under any decoder
+TwinChar(c, seps) == IF c \in seps THEN c ELSE IF c \in TwinMeta THEN "a" ELSE c
 RECURSIVE TwinOf(_, _)
 TwinOf(d, seps) == IF d = "" THEN "" ELSE TwinChar(TX!Ch(d, 1), seps) \o TwinOf(TX!Tail1(d), seps)
 
